@@ -22,7 +22,9 @@ def budget(tier):
 
 def gen_cases(rng, n, tier):
     cfgs = (B.all_cfgs('blog', dict(excl_notes=True))[::2] + B.all_cfgs('blog')[::4]
-            + B.all_cfgs('blog', dict(include_x=True))[::8] + B.all_cfgs('blog', dict(excl_fk=True))[::4])
+            + B.all_cfgs('blog', dict(include_x=True))[::8] + B.all_cfgs('blog', dict(excl_fk=True))[::4]
+            # the exclude set given to make_versioned() only (no class-level 'exclude' key)
+            + B.all_cfgs('blog', dict(mgr_excl=True))[::3] + B.all_cfgs('blog', dict(mgr_excl=True, excl_notes=True))[::5])
     cases = B.gen_cases_default(rng, n, tier, cfgs=cfgs)
     # bias: inject excluded-only transactions
     for i, c in enumerate(cases):
@@ -44,7 +46,11 @@ def corpus():
                        ['tagto', 1, None], ['commit']]),
             dict(cfg=dict(shape='blog', strategy='validity', excl_notes=True),
                  prog=[['add', 0, 1, {'a': 1}], ['add', 3, 1, {'a': 0}], ['commit'], ['noteto', 1, 1], ['commit'],
-                       ['set', 0, 1, {'x': 5}], ['commit'], ['set', 0, 1, {'x': 6}], ['tagappend', 1, 1], ['commit']])]
+                       ['set', 0, 1, {'x': 5}], ['commit'], ['set', 0, 1, {'x': 6}], ['tagappend', 1, 1], ['commit']]),
+            # exclusion configured for the manager only: transactions changing only the excluded column
+            dict(cfg=dict(shape='blog', strategy='validity', mgr_excl=True),
+                 prog=[['add', 0, 1, {'a': 1, 'x': 1}], ['commit'], ['set', 0, 1, {'x': 5}], ['commit'],
+                       ['set', 0, 1, {'a': 2}], ['commit'], ['set', 0, 1, {'x': 6}], ['commit']])]
 
 
 def nontrivial(case, obs):
